@@ -22,6 +22,7 @@ import (
 	"errors"
 	"fmt"
 	"os"
+	"path/filepath"
 
 	"github.com/spf13/cobra"
 
@@ -86,6 +87,7 @@ func signCmd(cmd *cobra.Command, args []string) error {
 		return shared.Fail(err)
 	}
 	opts.Path = argFile
+	opts.Audit.Attributes["client.filename"] = filepath.Base(argFile)
 	infile, err := shared.OpenForPatching(argFile, argOutput)
 	if err != nil {
 		return shared.Fail(err)
